@@ -37,6 +37,9 @@ func runRender(c Case) interface{} {
 		return J{"class": res.Class, "out": res.Out, "msg": res.Msg, "tok": tokenize(res.Out)}
 	}
 	debug, _ := c["debug"].(bool)
+	if _, marked := c["go_data"]; marked {
+		c["data"] = reviveGo(c["data"]) // {"__go": ...} markers become Go values a JSON file cannot carry
+	}
 	if sib := asList(c["siblings"]); len(sib) > 0 {
 		// other page templates in the SAME directory (names sorting before and after "t"): what they define must not leak
 		files := map[string]string{"t": ast}
